@@ -888,35 +888,101 @@ def exhaustive_histories(depth):
 _CLASSES = {}
 
 
-def sig_of(pv, style):
-  return (pv['cls'], pv['frozen'], tuple((n, b) for n, b, _ in pv['fs']), style)
+_CLASS_NOTES = {}  # sig -> observations made when the class was created (metadata handling of struct.field)
+
+META_MODES = ('none', 'fresh', 'shared', 'stale', 'shared_stale')
 
 
-def make_class(pv, style):
-  sig = sig_of(pv, style)
+def sig_of(pv, style, meta='none'):
+  return (pv['cls'], pv['frozen'], tuple((n, b) for n, b, _ in pv['fs']), style, meta)
+
+
+def make_class(pv, style, meta='none'):
+  """Builds the class for a layout.  `meta` says how the fields are declared:
+  none          data fields are bare annotations, static ones `struct.field(pytree_node=False)`
+  fresh         every field `struct.field(pytree_node=flag, metadata=<its own new dict>)`
+  shared        every field `struct.field(pytree_node=flag, metadata=M)` with ONE dict object M for the whole class
+  stale         own dict per field that already holds a 'pytree_node' entry with the opposite flag
+  shared_stale  one shared dict that already holds a stale 'pytree_node' entry"""
+  sig = sig_of(pv, style, meta)
   if sig in _CLASSES:
     return _CLASSES[sig]
-  import typing, types
+  import dataclasses, typing, types
 
   ns = {'__annotations__': {n: typing.Any for n, _, _ in pv['fs']}}
-  for n, b, _ in pv['fs']:
-    if not b:
-      ns[n] = fstruct.field(pytree_node=False)
+  user_dicts = []  # (dict object, snapshot, [field names it was passed for])
+  if meta == 'none':
+    for n, b, _ in pv['fs']:
+      if not b:
+        ns[n] = fstruct.field(pytree_node=False)
+  else:
+    shared = None
+    for j, (n, b, _) in enumerate(pv['fs']):
+      if meta in ('shared', 'shared_stale'):
+        if shared is None:
+          shared = {'units': 'm'}
+          if meta == 'shared_stale':
+            shared['pytree_node'] = not b
+          user_dicts.append((shared, dict(shared), []))
+        m = shared
+      else:
+        m = {'units': 'u%d' % j}
+        if meta == 'stale':
+          m['pytree_node'] = not b
+        user_dicts.append((m, dict(m), []))
+      user_dicts[-1][2].append(n)
+      ns[n] = fstruct.field(pytree_node=b, metadata=m)
   kw = {} if pv['frozen'] else {'frozen': False}
   if style == 'pytreenode':
     cls = types.new_class(pv['cls'], (fstruct.PyTreeNode,), kw, lambda d: d.update(ns))
   else:
     base = type(pv['cls'], (), ns)
     cls = fstruct.dataclass(base, **kw) if style == 'decorator' else fstruct.dataclass(**kw)(base)
+  notes = {'problems': [], 'flags': None, 'store': [], 'specs': []}
+  if meta != 'none':
+    for m, snap, names in user_dicts:
+      if m != snap:
+        notes['problems'].append(('struct-field-mutates-caller-metadata', f'struct.field changed the metadata dict passed for fields {names} of {pv["cls"]} from {snap} to {m}'))
+    flags = [[f.name, f.metadata.get('pytree_node', True)] for f in dataclasses.fields(cls)]
+    want = [[n, b] for n, b, _ in pv['fs']]
+    if flags != want:
+      notes['problems'].append(('struct-field-flag-not-own', f'fields of {pv["cls"]} declared ({meta} metadata dicts) with pytree_node flags {want} carry {flags}'))
+    for f, (m, snap, names) in zip(dataclasses.fields(cls), user_dicts if meta in ('fresh', 'stale') else [user_dicts[0]] * len(pv['fs'])):
+      if f.metadata.get('units') != snap.get('units'):
+        notes['problems'].append(('struct-field-loses-user-metadata', f'field {f.name} of {pv["cls"]} lost the caller metadata entry units={snap.get("units")!r}'))
+        break
+    # the same declaration for the model: store of caller dicts (only the 'pytree_node' entry matters) + specs
+    enc = lambda d: [['units', 1]] + ([['pytree_node', 1 if d['pytree_node'] else 0]] if 'pytree_node' in d else [])
+    notes['store'] = [enc(snap) for _, snap, _ in user_dicts]
+    idx = {}
+    for j, (_, _, names) in enumerate(user_dicts):
+      for n in names:
+        idx[n] = j
+    notes['specs'] = [[n, b, idx[n]] for n, b, _ in pv['fs']]
+    notes['flags'] = flags
   _CLASSES[sig] = cls
+  _CLASS_NOTES[sig] = notes
   return cls
+
+
+def class_notes(pv, style, meta):
+  """notes of every class used by a layout (nested ones included)"""
+  out = []
+  if isinstance(pv, dict):
+    out.append(_CLASS_NOTES.get(sig_of(pv, style, meta), {'problems': [], 'flags': None, 'store': [], 'specs': []}))
+    for _, _, v in pv['fs']:
+      out += class_notes(v, style, meta)
+  return out
+
+
+_META = ['none']  # how the classes of the layout being checked declare their fields (set by struct_case)
 
 
 def build(pv, style, conv=None, data=True):
   """real instance for a model value; `conv` converts data leaves (e.g. to arrays)"""
   if not isinstance(pv, dict):
     return conv(pv) if (conv and data) else pv
-  cls = make_class(pv, style)
+  cls = make_class(pv, style, _META[0])
   return cls(**{n: build(v, style, conv, data and b) for n, b, v in pv['fs']})
 
 
@@ -972,11 +1038,19 @@ def s_call(fn):
 def struct_case(ctx, drv, case, heavy):
   """one layout: implementation observations, oracles, model requests. Returns (reqs, finish(outs))"""
   pv, style = case['pv'], case['style']
+  meta = case.get('meta', 'none')
+  _META[0] = meta
   x = build(pv, style)
-  orig = to_pv(x)
   bad = []
   reqs = []
   checks = []
+  # struct.field with caller metadata dicts: the caller's dicts are untouched and every field carries its own flag
+  for notes in class_notes(pv, style, meta):
+    bad += notes['problems']
+    if notes['flags'] is not None:
+      reqs.append(('s.declare', [notes['store'], notes['specs']]))
+      checks.append(('declare', notes['flags']))
+  orig = to_pv(x)
   if orig != pv:
     bad.append(('struct-construct', f'constructing {json.dumps(pv)} gives {json.dumps(orig)}'))
   # flatten: leaves are exactly the pytree_node fields, in order
@@ -1054,11 +1128,15 @@ def struct_case(ctx, drv, case, heavy):
 
   def finish(outs):
     dis = []
-    base_def = outs[0][1][1] if outs[0][0] == 'ok' else None
+    i0 = next(i for i, (kind, _) in enumerate(checks) if kind == 'flatten')
+    base_def = outs[i0][1][1] if outs[i0][0] == 'ok' else None
     for (kind, imp), m in zip(checks, outs):
       if kind == 'flatten':
         if m[0] != 'ok' or m[1][0] != imp:
           dis.append(('model-struct-flatten', f'leaves of {json.dumps(pv)}: implementation {imp}, model {m}'))
+      elif kind == 'declare':
+        if m[0] != 'ok' or [list(p) for p in m[1]] != [list(p) for p in imp]:
+          dis.append(('model-struct-declare', f'{json.dumps(case)}: field flags {imp} in the implementation, {m} in the model'))
       elif kind == 'same':
         if tuple(m) != tuple(imp) and not (m[0] == 'err' and imp[0] == 'err' and m[1] == imp[1]):
           dis.append(('model-struct-result', f'{json.dumps(case)}: implementation {imp}, model {m}'))
@@ -1174,6 +1252,7 @@ def gen_struct_case(rng):
     'kind': 'struct',
     'pv': pv,
     'style': rng.choice(['decorator', 'decorator_kw', 'pytreenode']),
+    'meta': rng.choice(['none', 'none', 'fresh', 'shared', 'shared', 'stale', 'shared_stale']),
     'ups': ups,
     'k': rng.randrange(-3, 4),
     'set': [rng.choice(names) if rng.random() < 0.9 else 'zz', ctr[0]],
@@ -1197,6 +1276,8 @@ def run_structs(ctx, drv, cases, heavy_every):
     ctx.count('struct_fields', len(pv['fs']))
     ctx.count('struct_meta_fields', nmeta)
     ctx.count('struct_style', case['style'])
+    ctx.count('struct_field_metadata', case.get('meta', 'none'))
+    ctx.count('struct_shared_dict_mixed_flags', int(case.get('meta') in ('shared', 'shared_stale') and len({b for _, b, _ in pv['fs']}) == 2))
     ctx.count('struct_nested', int(any(isinstance(v, dict) for _, _, v in pv['fs'])))
     if bad:
       ctx.violation(bad[0][0], bad[0][1], case, concrete=True)
